@@ -1,7 +1,8 @@
 (** extraction of the C01 model: specifications (Z) and the as-is word-level models *)
 Require Import FastZ.
-From Dashu Require Import Base.Prelude Base.Words Int.RingSpec Int.RingAdd Int.RingMul Int.RingOps.
-From DashuGen Require Import SignTables Params.
+From Dashu Require Import Base.Prelude Base.Words Int.RingSpec Int.RingAdd Int.RingMul Int.RingOps
+  Int.RingToomW Int.DivWordModel Int.DivWordInst Int.RingMulW Int.RingOpsW Int.RingScratch.
+From DashuGen Require Import SignTables Params MulMemory.
 Extraction "model.ml"
   signed sign_of value to_words
   ubig_add_spec ubig_sub_spec ubig_mul_spec ibig_add_spec ibig_sub_spec ibig_mul_spec
@@ -13,4 +14,8 @@ Extraction "model.ml"
   simple_add_signed_mul split_into_chunks karatsuba_same_len toom3_same_len
   add_signed_mul_same_len add_signed_mul multiply simple_square sqr
   repr_value srepr_value from_buffer typed_of_value repr_add repr_sub repr_sub_signed repr_mul repr_sqr
-  ibig_add_asis ibig_sub_asis ibig_mul_asis ubig_cubic_asis ibig_cubic_asis repr_pow ubig_pow_asis ibig_pow_asis.
+  ibig_add_asis ibig_sub_asis ibig_mul_asis ubig_cubic_asis ibig_cubic_asis repr_pow ubig_pow_asis ibig_pow_asis
+  x2by1 toom3x_same_len add_signed_mul_same_len_w add_signed_mul_w multiply_w sqr_w
+  simple_add_signed_mul_w karatsuba_add_signed_mul_w toom3_add_signed_mul_w
+  repr_mul_w repr_sqr_w ibig_mul_asis_w ubig_cubic_asis_w ibig_cubic_asis_w
+  kernel_need kernel_alloc mul_need sqr_need mul_memory_words_exact sqr_memory_words.
